@@ -1,10 +1,72 @@
-(* C10 — ParseResults behaves as a list plus an ordered multimap of names.  Statements only. *)
+(* C10 — ParseResults behaves as a list plus an ordered multimap of names.
+   Statements only; every proof is `exact <lemma>` (or vm_compute on a closed witness).
+   `apply_op`/`run_ops` (Model/ResultsAPI.v + Model/Results.v) mirror results.py statement by statement, stored
+   positions included; `spec_op`/`spec_run` (Model/ResultsSpec.v) are the same operations on a plain Python list and an
+   ordered multimap (name -> values, plus the set of list-all names); `view` forgets positions, `_name`, `_modal`. *)
 From Coq Require Import List ZArith NArith Bool.
 From PP Require Import Model.Str Model.Results Model.ResultsAPI Model.ResultsSpec Proofs.ResultsProofs.
 Import ListNotations.
 Local Open Scope Z_scope.
 
+(* every public operation (all but get_name(), see below) acts on the views exactly as the list / multimap
+   operation does, and returns the corresponding result or raises the same exception class *)
+Theorem C10_op_refines : forall r o, observes_views o = true ->
+  spec_op (view r) o = (view (fst (apply_op r o)), result_view (snd (apply_op r o))).
+Proof. exact op_refines. Qed.
+
+(* ... hence after ANY finite history the list view equals the Python list put through the same history, the name view
+   the multimap put through it, and every intermediate result agrees *)
+Theorem C10_history : forall ops r, forallb observes_views ops = true ->
+  spec_run (view r) ops = (map result_view (fst (run_ops r ops)), view (snd (run_ops r ops))).
+Proof. exact history_refines. Qed.
+
+(* non-vacuity: a history mixing list and name operations on a result with a list-all name *)
+Example C10_history_instance :
+  let r := pr_iadd (pr_init (RList [TStr [97%N]; TStr [98%N]]) (Some [120%N]) false false)
+                   (pr_init (RList [TStr [99%N]]) (Some [120%N]) false false) in
+  let ops := [OInsert 0 (TInt 7); ODelInt (-1); OGetName [120%N]; OPop (Some (PKName [120%N])) [] None false; OGetAttr [120%N]] in
+  forallb observes_views ops = true /\
+  map result_view (fst (run_ops r ops)) =
+    [VRNone; VRNone; VRTok (VPR [VStr [97%N]; VStr [99%N]] [] []); VRTok (VPR [VStr [97%N]; VStr [99%N]] [] []); VRTok (VStr [])] /\
+  av_list (view (snd (run_ops r ops))) = [VInt 7; VStr [97%N]; VStr [98%N]].
+Proof. vm_compute. repeat split. Qed.
+
+(* stored positions are invisible: two results with the same views cannot be told apart by any history of
+   view-observing operations *)
+Theorem C10_positions_invisible : forall r1 r2 ops, view r1 = view r2 -> forallb observes_views ops = true ->
+  map result_view (fst (run_ops r1 ops)) = map result_view (fst (run_ops r2 ops)) /\
+  view (snd (run_ops r1 ops)) = view (snd (run_ops r2 ops)).
+Proof. exact positions_invisible. Qed.
+
+Example C10_positions_invisible_instance : view gn_r1 = view gn_r2 /\ gn_r1 <> gn_r2.
+Proof. split; [reflexivity|discriminate]. Qed.
+
+(* deleting / inserting / replacing list items never removes or alters named values (nor the list-all flags) *)
+Theorem C10_list_ops_keep_names : forall r o, list_item_op o = true ->
+  av_map (view (fst (apply_op r o))) = av_map (view r) /\ av_all (view (fst (apply_op r o))) = av_all (view r).
+Proof. exact list_item_op_keeps_names. Qed.
+
+(* the exception: get_name() falls back on the first stored position, so it can distinguish results with equal
+   views (both states are reachable through the public API) *)
+Theorem C10_get_name_reads_positions_refuted :
+  view gn_r1 = view gn_r2 /\ rname gn_r1 = rname gn_r2 /\ get_name gn_r1 <> get_name gn_r2.
+Proof. exact get_name_reads_positions. Qed.
+
 (* attribute access to an unknown name returns '' (names starting with "__" raise AttributeError instead) *)
 Theorem C10_unknown_attr : forall r k, contains r k = false -> starts_dunder k = false ->
   apply_op r (OGetAttr k) = (r, RTok (TStr [])).
 Proof. exact unknown_attr. Qed.
+
+Example C10_unknown_attr_instance :
+  apply_op (pr_of_list [TStr [97%N]]) (OGetAttr [110%N; 111%N]) = (pr_of_list [TStr [97%N]], RTok (TStr [])).
+Proof. reflexivity. Qed.
+
+(* the lookup forms agree: r[name], r.name and r.get(name, d) return the same value for a present name ... *)
+Theorem C10_lookup_forms_agree : forall r k, contains r k = true ->
+  exists v, getitem_name r k = Some v /\ getattr r k = RTok v /\ (forall d, get r k d = v) \/ pr_getname r k = None.
+Proof. exact lookup_forms_agree. Qed.
+
+(* ... and as_dict() holds, under each key, that same multimap lookup (converted by to_item) *)
+Theorem C10_as_dict_entry : forall r k, In k (keys r) ->
+  In (k, v_to_item (mm_lookup_present (view r) k)) (spec_as_dict (view r)) \/ mm_lookup (view r) k = None.
+Proof. exact as_dict_entry. Qed.
